@@ -152,7 +152,7 @@ def run(ck, w):
                 if e.bb not in b.live:
                     continue
                 st = e.term.get("self_ty") or ""
-                if (e.callee or "") in ORDER_CALLS + ("std::cmp::PartialEq::eq", "std::cmp::PartialEq::ne") and re.search(r"^&?(str|std::string::String|\[u8\]|std::vec::Vec<u8>)$", re.sub(r"&'\w+ ", "&", st)):
+                if (e.callee or "") in ORDER_CALLS + ("std::cmp::PartialEq::eq", "std::cmp::PartialEq::ne") and re.search(r"^(std::option::Option<)?&?(str|std::string::String|\[u8\]|std::vec::Vec<u8>)>?$", re.sub(r"&'\w+ ", "&", st)):
                     n_cmp += 1
                     for a in e.args[:2]:
                         orig = flow.origins_x(lib, b, a, through_calls=[r"<impl str>::as_bytes$", r"String::as_bytes$", r"String::as_str$"])
@@ -163,13 +163,16 @@ def run(ck, w):
                         # second idiom: the path is consumed with split_once('/'): the directory part (.0) is one component,
                         # and the remaining tail is compared only after split_once found no further '/' in it
                         so_ok = False
-                        so_calls = [x for x in orig if x[0] == "call" and x[1].endswith("<impl str>::split_once")]
+                        so_calls = [x for x in orig if x[0] == "call" and re.search(r"<impl str>::r?split_once$", x[1])]
                         # (in a recursive helper the tail arrives as a parameter: `fn cmp_from(a: &str, b: &str)` compares `a` itself
                         # only where a.split_once('/') found no '/')
                         tail_param = not so_calls and b is not cb and orig and all(x[0] in ("param", "via") for x in orig)
-                        if (so_calls or tail_param) and all(x[0] != "call" or x[1].endswith("<impl str>::split_once") for x in orig):
-                            heads_only = bool(so_calls) and all(x[3][:2] in (("as Some", "0"),) or (x[3] and x[3][-1] == "0") for x in so_calls)
-                            examined = [x2 for x2 in b.events if x2.bb in b.live and x2.name.endswith("<impl str>::split_once") and len(x2.args) > 1
+                        if (so_calls or tail_param) and all(x[0] != "call" or re.search(r"<impl str>::r?split_once$", x[1]) for x in orig):
+                            # split_once('/'): the part BEFORE the first '/' is one component; rsplit_once('/'): the part AFTER the last
+                            heads_only = bool(so_calls) and all(
+                                (x[3][:2] in (("as Some", "0"),) or (x[3] and x[3][-1] == "0")) if x[1].endswith("::split_once")
+                                else (x[3][:2] in (("as Some", "1"),) or (x[3] and x[3][-1] == "1")) for x in so_calls)
+                            examined = [x2 for x2 in b.events if x2.bb in b.live and re.search(r"<impl str>::r?split_once$", x2.name) and len(x2.args) > 1
                                         and x2.args[1].get("int") == "47" and flow.operand_local(x2.args[0]) is not None]
                             al = flow.operand_local(a)
                             same_var = False
@@ -179,7 +182,7 @@ def run(ck, w):
                                     rl = flow.operand_local(x2.args[0])
                                     if rl in ca or al in flow.result_carriers(b, rl) or (flow.origins(b, al) & flow.origins(b, rl)):
                                         same_var = True
-                            if all(x2.args[1].get("int") == "47" for x2 in b.events if x2.bb in b.live and x2.name.endswith("<impl str>::split_once") and len(x2.args) > 1) \
+                            if all(x2.args[1].get("int") == "47" for x2 in b.events if x2.bb in b.live and re.search(r"<impl str>::r?split_once$", x2.name) and len(x2.args) > 1) \
                                     and (heads_only or same_var):
                                 so_ok = True
                         if not so_ok:
@@ -382,7 +385,7 @@ def run(ck, w):
                 ed |= rules.bool_switch_edges(b, e, True)
             if not iv or not ed or not b.must_pass_edges(ed, bb):
                 problems.append((b, "Apath constructed without is_valid==true"))
-    ck.floor("C11.3.n", "hand-written Apath constructions", n, 4)
+    ck.floor("C11.3.n", "hand-written Apath constructions", n, 2)
     if problems:
         for b, m in problems:
             ck.fail(o, b.root, m, m, "%s:%d" % (b.file, b.lo))
